@@ -39,6 +39,7 @@
   `int()` is modelled on ASCII decimal literals; file names are taken relative to the source roots.
 -/
 import GIVerif.Lemmas.GirCodec
+import GIVerif.Lemmas.GirMembers
 import GIVerif.Gen.GirVocabRW
 
 namespace GIVerif.GirCodec
@@ -351,5 +352,172 @@ example : DocKids [Xml.elem "doc" [] [] none, Xml.elem "attribute" [] [] none] :
   intro x hx
   simp only [List.mem_cons, List.not_mem_nil, or_false] at hx
   rcases hx with rfl | rfl <;> decide
+
+/-! ### members of a record / union (`_write_field`, `_parse_fields`, `_parse_field`, the length loop of `_parse_compound`) -/
+
+/-- the full statement: the member elements of a compound read back as the members written -/
+def C07_members_roundtrip_full : Prop :=
+  ∀ (ns : Str) (ms : List Member) (xs : List Xml), ms.all (wfMember ns) = true →
+    writeMembers ns ms = .ok xs → parseMembers ns xs = .ok (ms.map canonMember)
+
+/-- `parse (write ms) = canon ms` for the members of a record / union — typed fields with every attribute,
+    doc children and the `length` index resolved back to the FIELD name, fields holding a callback — between
+    any other children (`pre`: the compound's own doc children, `post`: its methods and functions),
+    PROVIDED no member is an anonymous struct / union (`isFieldElem`): see the counterexample below. -/
+theorem C07_members_roundtrip_partial (ns : Str) (ms : List Member) (xs pre post : List Xml)
+    (hwf : ms.all (wfMember ns) = true) (hfe : ms.all isFieldElem = true)
+    (hw : writeMembers ns ms = .ok xs) (hpre : NoMemberTags pre) (hpost : NoMemberTags post) :
+    parseMembers ns (pre ++ xs ++ post) = .ok (ms.map canonMember) := by
+  have hF := mapMExcept_forall2 _ _ _ hw
+  have hall : ∀ m ∈ ms, wfMember ns m = true := by rw [List.all_eq_true] at hwf; exact hwf
+  have hfld : ∀ m ∈ ms, isFieldElem m = true := by rw [List.all_eq_true] at hfe; exact hfe
+  have hxm : ∀ x ∈ xs, memberTags.contains x.tag = true :=
+    forall2_right _ _ _ _ hF (fun a y ha hr => (parse_write_member ns _ a y hr (hall a ha)).1)
+  have hxf : ∀ x ∈ xs, x.tag = "field" :=
+    forall2_right _ _ _ _ hF (fun a y ha hr => by
+      rw [(parse_write_member ns _ a y hr (hall a ha)).2.1]; exact hfld a ha)
+  have hnf : ∀ (l : List Xml), NoMemberTags l → ∀ x ∈ l, decide (x.tag = "field") = false := by
+    intro l hl x hx
+    have := hl x hx
+    simp only [memberTags, List.contains_cons, List.contains_nil, Bool.or_false, Bool.or_eq_false_iff,
+      beq_eq_false_iff_ne, ne_eq] at this
+    simpa using this.1
+  have h1 : (pre ++ xs ++ post).filter (fun x => memberTags.contains x.tag) = xs :=
+    filter_append3 _ pre xs post hpre hxm hpost
+  have h2 : findAllTag "field" (pre ++ xs ++ post) = xs :=
+    filter_append3 _ pre xs post (hnf pre hpre) (fun x hx => by simp [hxf x hx]) (hnf post hpost)
+  have hp0 : mapMExcept (parseMember ns) xs = .ok (ms.map canonMember0) :=
+    mapMExcept_of_forall2 _ _ _ _ _ hF (fun a y ha hr => (parse_write_member ns _ a y hr (hall a ha)).2.2.1)
+  unfold parseMembers
+  rw [h1, hp0, h2]
+  simp only [memberNames_canon0]
+  exact lengthPass_forall2 _ _ _ _ _ _ hF
+    (fun a y ha hr => (parse_write_member ns _ a y hr (hall a ha)).2.2.2 (hfld a ha))
+
+def fieldOf (n : String) (t : Ty) : Member :=
+  { name := some n.toList, body := .typed t, readable := true, writable := true, bits := none, isPrivate := false,
+    version := none, skip := false, introspectable := true, deprecated := none, stability := none, docs := {} }
+
+def tyGuint8 : Ty := .plain (some "guint8".toList) none (.fundamental "guint8".toList)
+def tyGuint : Ty := .plain (some "guint".toList) none (.fundamental "guint".toList)
+/-- `union { … } u;` -/
+def mAnonU : Member := { fieldOf "u" .unknown with body := .anon "union", writable := false }
+/-- `guint8 *data;` with `(array length=len)` -/
+def mData : Member := fieldOf "data" (.array (some "guint8*".toList) none none false none (some "len".toList) tyGuint8)
+def mLen : Member := fieldOf "len" tyGuint
+def mPlain : Member := fieldOf "x" tyGuint
+
+def membersCycle (parse : Str → List Xml → Except Err (List Member)) (ms : List Member) : Except Err (List Member) :=
+  match writeMembers nsFoo ms with
+  | .ok xs => parse nsFoo xs
+  | .error e => .error e
+
+def isErr (e : Err) : Except Err (List Member) → Bool
+  | .error e' => e' == e
+  | .ok _ => false
+
+def isOkMembers (r : Except Err (List Member)) (ms : List Member) : Bool :=
+  match r with
+  | .ok ms' => ms' == ms
+  | .error _ => false
+
+/-- DEFECT (in scope: `struct { union {…} u; guint8 *data; guint len; }` with `@data: (array length=len)`):
+    the reader pairs the i-th `<field>` ELEMENT with `compound.fields[i]`, which also counts the anonymous
+    member.  Either `field.type` is `None` there and the reader aborts (AttributeError), or — one more plain
+    field after the anonymous member — the length lands on a non-array type and is silently lost.
+    Model and real code agree on both (harness corpus `finding-compound-array-length.json`). -/
+theorem C07_members_misindexed_counterexample :
+    [mAnonU, mData, mLen].all (wfMember nsFoo) = true ∧
+    isErr .attributeError (membersCycle parseMembers [mAnonU, mData, mLen]) = true ∧
+    [mAnonU, mPlain, mData, mLen].all (wfMember nsFoo) = true ∧
+    isOkMembers (membersCycle parseMembers [mAnonU, mPlain, mData, mLen])
+      [canonMember mAnonU, canonMember mPlain, memberDropLen (canonMember mData), canonMember mLen] = true ∧
+    memberDropLen (canonMember mData) ≠ canonMember mData := by decide
+
+theorem C07_members_roundtrip_full_false : ¬ C07_members_roundtrip_full := by
+  intro h
+  have hw : ∃ xs, writeMembers nsFoo [mAnonU, mData, mLen] = .ok xs := by
+    cases hx : writeMembers nsFoo [mAnonU, mData, mLen] with
+    | ok xs => exact ⟨xs, rfl⟩
+    | error e =>
+      have : (match writeMembers nsFoo [mAnonU, mData, mLen] with | .ok _ => true | .error _ => false) = true := by
+        decide
+      rw [hx] at this; cases this
+  obtain ⟨xs, hx⟩ := hw
+  have h1 := h nsFoo _ xs C07_members_misindexed_counterexample.1 hx
+  have h2 := C07_members_misindexed_counterexample.2.1
+  simp only [membersCycle, hx, h1, isErr] at h2
+  cases h2
+
+/-- The pairing a repair has to use: every member ELEMENT (`<field>`, `<record>`, `<union>`, `<callback>`)
+    with the `compound.fields` entry `_parse_fields` made from it; only `<field>` elements carry a type. -/
+def lengthPassAligned (names : List (Option Str)) : List Xml → List Member → Except Err (List Member)
+  | [], ms => .ok ms
+  | _ :: _, [] => .ok []
+  | n :: ns, m :: ms =>
+    match (if n.tag = "field" then lengthUpd names n m else .ok m) with
+    | .error e => .error e
+    | .ok m' => match lengthPassAligned names ns ms with
+      | .error e => .error e
+      | .ok rest => .ok (m' :: rest)
+
+def parseMembersAligned (ns : Str) (kids : List Xml) : Except Err (List Member) :=
+  match mapMExcept (parseMember ns) (kids.filter (fun x => memberTags.contains x.tag)) with
+  | .error e => .error e
+  | .ok ms => lengthPassAligned (memberNames ms) (kids.filter (fun x => memberTags.contains x.tag)) ms
+
+/-- … and with that pairing the full statement holds for EVERY well-formed member list, anonymous
+    struct / union members included (what the model's `lengthPass` becomes once /repo pairs elements and
+    fields this way). -/
+theorem C07_members_roundtrip_aligned (ns : Str) (ms : List Member) (xs pre post : List Xml)
+    (hwf : ms.all (wfMember ns) = true) (hw : writeMembers ns ms = .ok xs)
+    (hpre : NoMemberTags pre) (hpost : NoMemberTags post) :
+    parseMembersAligned ns (pre ++ xs ++ post) = .ok (ms.map canonMember) := by
+  have hF := mapMExcept_forall2 _ _ _ hw
+  have hall : ∀ m ∈ ms, wfMember ns m = true := by rw [List.all_eq_true] at hwf; exact hwf
+  have hxm : ∀ x ∈ xs, memberTags.contains x.tag = true :=
+    forall2_right _ _ _ _ hF (fun a y ha hr => (parse_write_member ns _ a y hr (hall a ha)).1)
+  have h1 : (pre ++ xs ++ post).filter (fun x => memberTags.contains x.tag) = xs :=
+    filter_append3 _ pre xs post hpre hxm hpost
+  have hp0 : mapMExcept (parseMember ns) xs = .ok (ms.map canonMember0) :=
+    mapMExcept_of_forall2 _ _ _ _ _ hF (fun a y ha hr => (parse_write_member ns _ a y hr (hall a ha)).2.2.1)
+  unfold parseMembersAligned
+  rw [h1, hp0]
+  simp only [memberNames_canon0]
+  have key : ∀ (l : List Member) (ys : List Xml),
+      Forall2 (fun m x => writeMember ns (memberNames ms) m = .ok x) l ys → (∀ m ∈ l, wfMember ns m = true) →
+      lengthPassAligned (memberNames ms) ys (l.map canonMember0) = .ok (l.map canonMember) := by
+    intro l ys hf
+    induction hf with
+    | nil => intro _; rfl
+    | @cons a x as ys' hr _ ih =>
+      intro hl
+      obtain ⟨_, htag, _, hlen⟩ := parse_write_member ns _ a x hr (hl a (by simp))
+      have hstep : (if x.tag = "field" then lengthUpd (memberNames ms) x (canonMember0 a) else .ok (canonMember0 a))
+          = .ok (canonMember a) := by
+        by_cases hf' : isFieldElem a = true
+        · rw [if_pos (by rw [htag]; exact hf'), hlen hf']
+        · rw [if_neg (by rw [htag]; exact hf')]
+          rcases a with ⟨name, body, _, _, _, _, _, _, _, _, _, _⟩
+          cases body with
+          | anon tag => rfl
+          | callback cb => exact absurd rfl hf'
+          | typed t => exact absurd rfl hf'
+      simp only [List.map_cons, lengthPassAligned, hstep]
+      rw [ih (fun m hm => hl m (by simp [hm]))]
+  exact key ms xs hF hall
+
+-- the two witnesses of the defect are read back correctly by the aligned pairing
+example : isOkMembers (membersCycle parseMembersAligned [mAnonU, mData, mLen])
+      ([mAnonU, mData, mLen].map canonMember) = true ∧
+    isOkMembers (membersCycle parseMembersAligned [mAnonU, mPlain, mData, mLen])
+      ([mAnonU, mPlain, mData, mLen].map canonMember) = true := by decide
+-- non-vacuity of the partial theorem: a field list with a length index and a member holding a callback
+def exCb : Callable :=
+  { exCallable with klass := .callback, tag := "callback", instanceParam := none, symbol := none, shadows := none,
+                    getProperty := none }
+def mCb : Member := { fieldOf "cb" .unknown with body := .callback exCb, version := some "1.2".toList }
+example : [mData, mLen, mCb].all (wfMember nsFoo) = true ∧ [mData, mLen, mCb].all isFieldElem = true ∧
+    isOk (writeMembers nsFoo [mData, mLen, mCb]) = true := by decide
 
 end GIVerif.GirCodec
